@@ -60,7 +60,37 @@ ROW_DTYPES = ["i8", "i8", "i4", "i2", "u1", "u8", ">i4"]
 
 # ----------------------------------------------------------------------------- strategies
 
+@st.composite
+def _near_progression(draw, n):
+    """Row lists that almost are a range or an arithmetic progression (same first element, first gap and
+    last element, interior elements moved; or a contiguous range with a hole / one element appended): the
+    shapes a 'this list is really a slice' shortcut would mistake for one."""
+    step = draw(st.integers(1, max(1, (n - 1) // 3)))
+    k = draw(st.integers(3, max(3, min(12, (n - 1) // step + 1))))
+    first = draw(st.integers(0, max(0, n - 1 - (k - 1) * step)))
+    prog = [first + i * step for i in range(k) if first + i * step < n]
+    v = list(prog)
+    how = draw(st.sampled_from(["move-interior", "move-interior", "hole", "append", "exact"]))
+    if how == "move-interior" and len(v) >= 4:
+        for _ in range(draw(st.integers(1, 2))):
+            i = draw(st.integers(2, len(v) - 2))
+            v[i] = draw(st.integers(v[1] + 1, v[-1] - 1)) if v[-1] - v[1] >= 2 else v[i]
+    elif how == "hole" and len(v) >= 3:
+        del v[draw(st.integers(1, len(v) - 2))]
+    elif how == "append":
+        v.append(draw(st.integers(0, n - 1)))
+    if draw(st.integers(0, 3)) == 0:
+        v = list(draw(st.permutations(v)))
+    return v
+
+
 def _row_lists(n, allow_empty):
+    if n >= 5:
+        return st.one_of(_row_lists_plain(n, allow_empty), _row_lists_plain(n, allow_empty), _near_progression(n))
+    return _row_lists_plain(n, allow_empty)
+
+
+def _row_lists_plain(n, allow_empty):
     small = st.lists(st.integers(0, n - 1), min_size=0 if allow_empty else 1, max_size=min(2 * n + 2, 24))
     if n <= 24:
         perm = st.permutations(list(range(n))).flatmap(
@@ -122,7 +152,8 @@ def _cols(draw, names, kinds):
 @st.composite
 def _table(draw):
     delim = draw(st.sampled_from(DELIMS))
-    t = draw(T.tables(kind="binary" if delim is None else "text", max_fields=5, max_rows=12, big_rows=300))
+    t = draw(T.tables(kind="binary" if delim is None else "text", max_fields=5, max_rows=12, big_rows=300,
+                        allow_mixed_order=True))
     return delim, t
 
 
